@@ -224,6 +224,55 @@ theorem callGoal_query {fl : Bool} (g : Term) (K : Cont) (m : MS) (hb : bodyS fl
     callGoal g K [] m = clausesCall [clauseOf (qClause g)] (argList (qHead g)) K [] m :=
   callGoal_ok' g K [] m g g (res_nonvar [] g hnv) hnv (app_nil g) hb hw
 
+theorem headOK_qHead (g : Term) : headOK (qHead g) = true := by
+  unfold qHead
+  split
+  · rfl
+  · rename_i h
+    cases hl : (termVars g []).map Term.var with
+    | nil => simp [hl] at h
+    | cons a as =>
+      have h1 : tupleName ≠ "." := by decide
+      have h2 : tupleName ≠ ":-" := by decide
+      simp [headOK, Args.ofList, Args.length, h1, h2]
+
+/-- `callGoal` when the inner fuel suffices and the top-level disjuncts of the instantiated goal are
+    bodies of the fragment: one clause per disjunct -/
+theorem callGoal_okM' {fl : Bool} (g : Term) (K : Cont) (env : Env) (m : MS) (g0 g' : Term)
+    (hr : res env g = g0) (hnv : ∀ v, g0 ≠ .var v)
+    (ha : app env g0 = g') (hb : dbodyS fl g' = true) (hw : wfT g' = true) :
+    ∃ cs, Forall2 (fun cl dj => CRel fl cl (qHead g') dj) cs (SLD.disjuncts g') ∧
+      callGoal g K env m = clausesCall cs (argList (qHead g')) K env m := by
+  obtain ⟨cs, hcomp, hrel⟩ := rule_layouts (fl := fl) (qHead g') g' (wfT_qHead g') hw (headOK_qHead g')
+    (by simpa [dbodyS, List.all_eq_true] using hb)
+  refine ⟨cs, hrel, ?_⟩
+  unfold callGoal
+  rw [hr]
+  have hcc : compileCall g0 env = .ok (cs, argList (qHead g')) := by
+    unfold compileCall
+    simp only [ha]
+    change (match compile (toRep (qClause g')) with
+      | .ok cs => Except.ok (cs, (termVars g' []).map Term.var)
+      | .error e => .error e) = _
+    rw [show toRep (qClause g') = toRep (.app ":-" (.cons (qHead g') (.cons g' .nil))) from rfl, hcomp, qHead_args]
+  cases g0 with
+  | var v => exact absurd rfl (hnv v)
+  | _ => simp only [hcc]
+
+theorem callGoal_okM {fl : Bool} (g : Term) (K : Cont) (env : Env) (m : MS) (g0 g' : Term)
+    (hres : resolve inner env g = some g0) (hnv : ∀ v, g0 ≠ .var v)
+    (happ : applyAll inner env g0 = some g') (hb : dbodyS fl g' = true) (hw : wfT g' = true) :
+    ∃ cs, Forall2 (fun cl dj => CRel fl cl (qHead g') dj) cs (SLD.disjuncts g') ∧
+      callGoal g K env m = clausesCall cs (argList (qHead g')) K env m :=
+  callGoal_okM' g K env m g0 g' (by simp [res, hres]) hnv (by simp [app, happ]) hb hw
+
+/-- the query: compiled in the empty environment -/
+theorem callGoal_queryM {fl : Bool} (g : Term) (K : Cont) (m : MS) (hb : dbodyS fl g = true) (hw : wfT g = true)
+    (hnv : ∀ v, g ≠ .var v) :
+    ∃ cs, Forall2 (fun cl dj => CRel fl cl (qHead g) dj) cs (SLD.disjuncts g) ∧
+      callGoal g K [] m = clausesCall cs (argList (qHead g)) K [] m :=
+  callGoal_okM' g K [] m g g (res_nonvar [] g hnv) hnv (app_nil g) hb hw
+
 theorem callGoal_var (g : Term) (K : Cont) (env : Env) (m : MS) (v : Nat)
     (hres : resolve inner env g = some (.var v)) : callGoal g K env m = mkErr instErr env m := by
   unfold callGoal
